@@ -32,7 +32,7 @@ ALSO = {
     'C33-5B': 'a change of kvdb/flushable (empty value flushed as a deletion): C22 rc=1, C23 rc=1; the C33 harness never flushes its epoch databases',
     'C03-5B': 'C05 rc=1 forkless-cause-differs-from-definition, C06 rc=1 merged-clock-differs-from-definition (the fork flag is wrong in the index itself)',
     'C23-5A': 'C24 rc=1 table-differs-from-prefix-view-model (iterations interleaved with point reads through a table whose prefix slice has spare capacity)',
-    'C21-5B': 'NOT CAUGHT: needs a negative threshold, excluded by the assumption of the check (see DESIGN 11c)',
+    'C21-5B': 'missed until the C21 check was extended to negative thresholds (DESIGN 11c, known findings K2/K3); caught by C21 since then',
 }
 
 n = 0
